@@ -318,13 +318,15 @@ def duals_from_matching(K, match):
     queued = [match_col[j] != -1 for j in range(c)]
     head = 0
     limit = c + 2
+    budget = 64 * c + 1024  # optimal matchings need about one scan per column, long chains a few dozen; then give up
     while head < len(queue):
         j0 = queue[head]
         head += 1
         queued[j0] = False
         pops[j0] += 1
-        if pops[j0] > limit:
-            return None  # negative cycle: a cyclic exchange improves the matching
+        budget -= 1
+        if pops[j0] > limit or budget < 0:
+            return None  # (in all likelihood) a negative cycle: a cyclic exchange improves the matching
         row = K[match_col[j0]]
         base = dc[j0] - row[j0]
         for j in range(c):
